@@ -14,10 +14,66 @@ CVC5 = '/usr/bin/cvc5'
 def obligation_smt2(axioms, ob, terms=None):
     """SMT-LIB text of  axioms and pc and not goal ; `terms` (name -> z3 term) are bound to
     fresh constants in!<name> so that a counter-model can be read back from any solver."""
-    es = list(axioms) + list(ob.pc) + [z3.Not(ob.goal)]
+    es = relevant_axioms(axioms, list(ob.pc) + [ob.goal]) + list(ob.pc) + [z3.Not(ob.goal)]
     for name, t in (terms or {}).items():
         es.append(z3.Const('in!' + name, t.sort()) == t)
     return exprs_to_smt2(es)
+
+
+_SYM_CACHE = {}
+
+
+def symbols_of(e):
+    """names of the uninterpreted functions and constants occurring in e"""
+    key = e.get_id()
+    hit = _SYM_CACHE.get(key)
+    if hit is not None and hit[0].eq(e):
+        return hit[1]
+    out = set()
+    seen = set()
+    todo = [e]
+    while todo:
+        x = todo.pop()
+        if x.get_id() in seen:
+            continue
+        seen.add(x.get_id())
+        if z3.is_quantifier(x):
+            todo.append(x.body())
+            continue
+        if z3.is_app(x):
+            d = x.decl()
+            if d.kind() == z3.Z3_OP_UNINTERPRETED:
+                out.add(d.name())
+            todo.extend(x.children())
+    _SYM_CACHE[key] = (e, out)
+    return out
+
+
+def relevant_axioms(axioms, formulas):
+    """the axioms connected to the obligation through shared uninterpreted symbols (fixpoint).  Dropping a
+    hypothesis can only turn `unsat` into `unknown`/`sat`, never the reverse; it keeps definitions that the
+    obligation does not mention away from the solver's instantiation engine."""
+    syms = set()
+    for f in formulas:
+        syms |= symbols_of(f)
+    rest = [(a, symbols_of(a)) for a in axioms]
+    chosen = []
+    changed = True
+    while changed:
+        changed = False
+        nxt = []
+        for a, sa in rest:
+            if not sa or (sa & syms):
+                chosen.append(a)
+                if not sa <= syms:
+                    syms |= sa
+                    changed = True
+            else:
+                nxt.append((a, sa))
+        rest = nxt
+    order = {a.get_id(): i for i, a in enumerate(axioms)}
+    chosen.sort(key=lambda a: order[a.get_id()])
+    return chosen
 
 
 def has_quantifier(e):
@@ -38,7 +94,7 @@ def weakened_smt2(axioms, ob, terms=None):
     """refutation search only: quantified hypotheses dropped. A model of this query proves
     nothing by itself; it is a candidate input that is believed only after it has been
     replayed on the real code."""
-    es = [a for a in list(axioms) + list(ob.pc) if not has_quantifier(a)]
+    es = [a for a in relevant_axioms(axioms, list(ob.pc) + [ob.goal]) + list(ob.pc) if not has_quantifier(a)]
     es.append(z3.Not(ob.goal))
     for name, t in (terms or {}).items():
         es.append(z3.Const('in!' + name, t.sort()) == t)
